@@ -11,8 +11,11 @@ import json, os, subprocess, sys, time
 ROOT = os.path.dirname(os.path.dirname(os.path.abspath(__file__)))
 
 
+ENV = dict(os.environ, VERIF_NO_EVIDENCE="1")  # evidence files must come from the unchanged tree
+
+
 def sh(cmd, cwd=None, timeout=3600):
-    p = subprocess.run(cmd, cwd=cwd, shell=isinstance(cmd, str), timeout=timeout,
+    p = subprocess.run(cmd, cwd=cwd, shell=isinstance(cmd, str), timeout=timeout, env=ENV,
                        stdout=subprocess.PIPE, stderr=subprocess.STDOUT, text=True)
     return p.returncode, p.stdout
 
